@@ -5,7 +5,10 @@ import (
 	"fmt"
 	"math/big"
 	"math/rand/v2"
+	"os"
+	"runtime"
 	"strings"
+	"sync/atomic"
 	"testing"
 	"time"
 
@@ -35,9 +38,14 @@ func TestC45(t *testing.T) {
 		m.Count("corpus_items", len(cp.items))
 	}
 	st := &c45state{m: m, cp: cp, seenKeys: map[string]bool{}}
+	stopGuard := st.memGuard(3 << 30)
+	defer stopGuard()
 
 	// ---- baseline: unmutated corpus through the natural entry points ----
-	base := baselineCases(cp)
+	var base, dir []labelled
+	if m.Batch() == 0 {
+		base, dir = baselineCases(cp), directedCases(cp)
+	}
 	m.Each("baseline", len(base), func(i int64, r *rand.Rand) {
 		c := base[i]
 		out, ok := st.run(&c.in, "baseline", c.label)
@@ -60,7 +68,6 @@ func TestC45(t *testing.T) {
 	})
 
 	// ---- directed boundary inputs ----
-	dir := directedCases(cp)
 	m.Each("directed", len(dir), func(i int64, r *rand.Rand) {
 		c := dir[i]
 		if _, ok := st.run(&c.in, "directed", c.label); ok {
@@ -75,14 +82,21 @@ func TestC45(t *testing.T) {
 		if st.aborted {
 			return
 		}
-		in, kind, op := genCase(cp, r)
+		var in *caseIn
+		var kind, op string
+		if pv, stk := mon.Panics(func() { in, kind, op = genCase(cp, r) }); pv != nil {
+			// a defect of the workload generator is not a verdict on the property
+			m.Count("generator_panics", 1)
+			m.Inconclusive(fmt.Sprintf("workload generator panicked at case %d: %v\n%s", i, pv, trim(stk, 1500)))
+			return
+		}
 		out, ok := st.run(in, kind, op)
 		if !ok {
 			return
 		}
 		m.Count("mutation_cases", 1)
 		m.Count("entry:"+in.Entry, 1)
-		m.Count("opfamily:"+strings.SplitN(strings.TrimPrefix(op, "inner:"), ":", 2)[0], 1)
+		m.Count("opfamily:"+opFamily(op), 1)
 		if strings.HasPrefix(op, "inner:") {
 			m.Count("mutated_inside_encryption", 1)
 		}
@@ -111,6 +125,58 @@ type c45state struct {
 	seenKeys map[string]bool
 	aborted  bool
 	hangs    int
+	cur      atomic.Pointer[runningCase]
+}
+
+type runningCase struct {
+	in       *caseIn
+	p        *progress
+	kind, op string
+}
+
+// memGuard is the resource side of the termination monitor: a case that
+// drives the heap above limit (inputs are < 100 KiB and outputs are capped at
+// 64 MiB, so this is unbounded recursion/accumulation) is reported with its
+// input and the child stops (the memory cannot be reclaimed from the runaway
+// goroutine).
+func (st *c45state) memGuard(limit uint64) (stop func()) {
+	quit := make(chan struct{})
+	go func() {
+		t := time.NewTicker(250 * time.Millisecond)
+		defer t.Stop()
+		var ms runtime.MemStats
+		for {
+			select {
+			case <-quit:
+				return
+			case <-t.C:
+			}
+			runtime.ReadMemStats(&ms)
+			if ms.HeapInuse+ms.StackInuse < limit {
+				continue
+			}
+			rc := st.cur.Load()
+			w := map[string]any{"heap_inuse": ms.HeapInuse, "stack_inuse": ms.StackInuse, "limit": limit}
+			entry := "?"
+			if rc != nil {
+				entry = rc.p.curEntry()
+				w["entry"], w["flow"], w["kind"], w["op"] = entry, rc.in.Entry, rc.kind, rc.op
+				w["ring"], w["prompt"], w["buf"] = rc.in.Ring, rc.in.Prompt, rc.in.Buf
+				w["input_hex"] = mon.FullHex(rc.in.Data)
+				w["in_bytes"], w["out_bytes"] = rc.p.in.Load(), rc.p.out.Load()
+				if rc.in.RingData != nil {
+					w["keyring_hex"] = mon.FullHex(rc.in.RingData)
+				}
+			}
+			w["dump"] = trim(mon.GoroutineDump(), 20000)
+			st.m.Count("runaway_memory_seen", 1)
+			st.m.Violation("runaway-memory:"+entry, w)
+			st.m.Note("child stopped: heap above the guard limit")
+			st.m.Done()
+			os.Exit(3)
+		}
+	}()
+	return func() { close(quit) }
 }
 
 type labelled struct {
@@ -126,6 +192,7 @@ func (st *c45state) run(in *caseIn, kind, op string) (*caseOut, bool) {
 	}
 	p := &progress{}
 	out := &caseOut{}
+	st.cur.Store(&runningCase{in: in, p: p, kind: kind, op: op})
 	done := make(chan struct{})
 	var pv any
 	var pstack string
@@ -220,6 +287,14 @@ func trim(s string, n int) string {
 		return s[:n] + "…"
 	}
 	return s
+}
+
+func opFamily(op string) string {
+	op = strings.TrimPrefix(op, "inner:")
+	if i := strings.IndexAny(op, "+:"); i >= 0 {
+		op = op[:i]
+	}
+	return op
 }
 
 // opClass keeps the operator name low-cardinality for the distinct key.
@@ -654,7 +729,7 @@ func directedCases(cp *corpus) []labelled {
 					q := clonePkts(ps)
 					q[i].Body[5] = a
 					add("key:secret-algo-sweep", caseIn{Entry: eReadKeyRing, Data: encodeSeq(q, nil)})
-					add("key:secret-algo-sweep", caseIn{Entry: ePacketRead, Data: encodeDefault(q[i])})
+					everyBinaryEntry("key:secret-algo-sweep", encodeDefault(q[i]))
 				}
 			}
 		}
@@ -663,7 +738,7 @@ func directedCases(cp *corpus) []labelled {
 	for d := 1; d <= 40; d++ {
 		b := encodeDefault(lit)
 		for k := 0; k < d; k++ {
-			b = encodeDefault(compressPkt(byte(1+k%2), b))
+			b = encodeDefault(storedPkt(byte(1+k%2), b))
 		}
 		add("nest:compression-depth", caseIn{Entry: eReadMessage, Data: b})
 		add("nest:compression-depth", caseIn{Entry: ePacketRead, Data: b})
